@@ -11,6 +11,7 @@ mod cmd_fuzz;
 mod cmd_typecheck;
 mod cmd_conform;
 mod cmd_tc;
+mod cmd_parse;
 
 /// Command families.  To add one: create src/cmd_xxx.rs with
 /// `pub fn dispatch(cmd: &str, v: &J) -> Option<Result<J, String>>`, add `mod cmd_xxx;` above
@@ -21,6 +22,7 @@ const FAMILIES: &[fn(&str, &J) -> Option<Result<J, String>>] = &[
     cmd_typecheck::dispatch,
     cmd_conform::dispatch,
     cmd_tc::dispatch,
+    cmd_parse::dispatch,
 ];
 
 fn dispatch(cmd: &str, v: &J) -> Result<J, String> {
